@@ -1,0 +1,22 @@
+//go:build verif
+
+package raft
+
+import "sort"
+
+// VerifC07Members returns the ids raft knows as voting members, non-voting
+// members and witnesses, and whether a config change is marked pending.
+// Read-only; compiled only with -tags verif.
+func VerifC07Members(p *Peer) (voters []uint64, nonVotings []uint64,
+	witnesses []uint64, pendingConfigChange bool) {
+	keys := func(m map[uint64]*remote) []uint64 {
+		r := make([]uint64, 0, len(m))
+		for k := range m {
+			r = append(r, k)
+		}
+		sort.Slice(r, func(i, j int) bool { return r[i] < r[j] })
+		return r
+	}
+	return keys(p.raft.remotes), keys(p.raft.nonVotings),
+		keys(p.raft.witnesses), p.raft.pendingConfigChange
+}
